@@ -6,11 +6,12 @@ ASSUMPTIONS = [
     'exact real arithmetic; iterate, right-hand sides and the old contents of every scratch vector are free reals; everything is affine in them',
     'the GMGPolar object state is built directly (no constructor: it runs the cmdline library, which has no IR); the real setup() is executed, then the six PRIVATE cycle functions are called directly (-fno-access-control)',
     'coefficients: the shipped geometry/profile classes with libm in small-rational mode (sin/cos of a node angle -> a rational point of the unit circle near the true one, other transcendental values rounded to denominator <= 64): "some admissible coefficient values"; R0 = 1/8, Rmax = 5/4',
-    'extrapolated variants: "exact solution" means the exact solution of the extrapolated system: f_0 = A_0 u and f_1 = A_1 inject(u)',
+    'extrapolated variants: "exact solution" means the exact solution of the extrapolated system, in two forms: (a) f_0 = A_0 u and f_1 = A_1 inject(u) (any smoothing counts: u is then also a fixed point of both smoothers); (b) h_ex_zero_residual: u, f_0 free and f_1 := A_1 inject(u) + 4 R_ex(f_0 - A_0 u), i.e. the extrapolated residual vanishes although f_0 != A_0 u (smoothing counts zero: the cycle must be the identity whatever the coarser levels do from a zero start with a zero right-hand side)',
+    'thorough tier only: three-level cycles without smoothing against u + P M R(f - A u), M = what the cycle type prescribes on the next level from a zero start (V: one V cycle; W: two W cycles; F: an F cycle then a V cycle) carried out by the plain cycles of a second solver object - this restates the cycle structure of the code and is therefore not part of the quick verdict',
     '-DNDEBUG build',
 ]
 OUTSIDE = ['more than 3 levels', 'grids other than 9x8/5x4 and 17x16/9x8/5x4', 'rounding']
-BOUNDS = {'quick': 'V cycle plain and extrapolated, give, both boundary modes, (nu1,nu2) in {(1,1),(0,0)}; every one of the six cycle functions on 2 levels (fixed point and nu=0 coarse correction); W and F once each on 3 levels (17x16/9x8/5x4)',
+BOUNDS = {'quick': 'V cycle plain and extrapolated, give, both boundary modes, (nu1,nu2) in {(1,1),(0,0)}; every one of the six cycle functions on 2 levels (fixed point and nu=0 coarse correction) and on 3 levels (17x16/9x8/5x4: fixed point; extrapolated cycles also from a zero-extrapolated-residual iterate without smoothing)',
           'thorough': 'V/W/F x plain/extrapolated x both strategies x both modes x (nu1,nu2) in {(0,0),(1,1),(2,1),(0,2)} x extrapolation modes 0-3 (COMBINED with either smoother active); 2 levels, and 3 levels for the fixed point'}
 
 
@@ -21,7 +22,7 @@ def jobs(tier, seed):
     def add(entry, cyc, ex, strat, dirbc, nu1, nu2, lev3, geo, prof, fgs, diff=False):
         J.append(dict(entry=entry, args=[cyc, ex, strat, dirbc, nu1, nu2, lev3, geo, prof, fgs],
                       label=f'{entry[2:]} cycle={"VWF"[cyc]} ex={ex} strategy={strat} dirbc={dirbc} nu=({nu1},{nu2}) levels={3 if lev3 else 2} geo={geo} prof={prof} fgs={fgs}',
-                      cls=entry[2:], reach=['setup-done', 'cycle-done'], eager=False, libm_small=True, diff=diff, batch=12, witness=('lazy' if (lev3 and entry == 'h_coarse_correction') else False), solver_budget_quick=150))
+                      cls=entry[2:], reach=['setup-done', 'cycle-done'], eager=False, libm_small=True, diff=diff, batch=12, witness=('lazy' if (entry == 'h_ex_zero_residual' or (lev3 and entry == 'h_coarse_correction')) else False), solver_budget_quick=150))
     if q:
         for ex in (0, 1):
             for dirbc in (0, 1):
@@ -41,10 +42,11 @@ def jobs(tier, seed):
         # three levels: the recursive branches of the F and W cycles (stale scratch vectors on the intermediate level)
         add('h_fixed_point', 2, 0, 0, 0, 1, 1, 1, 0, 0, 0)
         add('h_fixed_point', 1, 1, 1, 1, 1, 1, 1, 0, 0, 0)
-        # three levels, no smoothing: the recursive branch against u + P M R(f - A u) (M = the next level's plain cycles from a zero start)
-        add('h_coarse_correction', 2, 1, 0, 0, 0, 0, 1, 0, 0, 0)
-        add('h_coarse_correction', 1, 0, 1, 1, 0, 0, 1, 0, 0, 0)
-        add('h_coarse_correction', 0, 2, 1, 0, 0, 0, 1, 0, 0, 0)
+        # extrapolated cycles without smoothing from an iterate whose EXTRAPOLATED residual vanishes (f != A u): identity, on 3 and 2 levels
+        add('h_ex_zero_residual', 2, 1, 0, 0, 0, 0, 1, 0, 0, 0)
+        add('h_ex_zero_residual', 1, 2, 1, 1, 0, 0, 1, 0, 0, 0)
+        add('h_ex_zero_residual', 0, 1, 1, 0, 0, 0, 1, 0, 0, 0)
+        add('h_ex_zero_residual', 1, 1, 0, 1, 0, 0, 0, 0, 0, 0)
         add('h_fixed_point', 0, 1, 0, 0, 1, 1, 1, 0, 0, 0)
         add('h_fixed_point', 2, 2, 1, 0, 1, 1, 1, 0, 0, 0)
     else:
@@ -58,6 +60,11 @@ def jobs(tier, seed):
                                 add('h_fixed_point', cyc, ex, strat, dirbc, nu1, nu2, 0, geo, prof, fgs)
                                 add('h_coarse_correction', cyc, ex, strat, dirbc, nu1, nu2, 0, geo, prof, fgs)
                         add('h_fixed_point', cyc, ex, strat, dirbc, 1, 1, 1, 0, 0, 0)
+                        if ex:
+                            add('h_ex_zero_residual', cyc, ex, strat, dirbc, 0, 0, 1, 0, 0, 0)
+                            add('h_ex_zero_residual', cyc, ex, strat, dirbc, 0, 0, 0, 1, 3, 0)
+                        if ex < 2:
+                            add('h_coarse_correction', cyc, ex, strat, dirbc, 0, 0, 1, 0, 0, 0)
     return J
 
 
